@@ -377,28 +377,7 @@ pub fn submul_nx1(lhs: &mut [u64], a: &[u64], b: u64) -> /*+*/(r:/*-*/ u64/*+*/)
 }
 //@ end
 
-//@ extract src/algorithms/mul.rs fn add_nx1
-// ASSUMED contract (label A): the early `return 0` inside a loop over `iter_mut()` needs the fact that dropping a
-// slice iterator leaves the unvisited elements unchanged, for which vstd has no resolution axiom. The contract is
-// discharged per length by Kani (c15::c15_add_nx1_*: all lengths 0..=6, all contents - complete per length).
-/*+*/#[verifier::external_body]/*-*/
-pub fn add_nx1(lhs: &mut [u64], a: u64) -> /*+*/(r:/*-*/ u64/*+*/)
-    ensures final(lhs).len() == old(lhs).len(), old(lhs).len() > 0 ==> r <= 1,
-        lvr(final(lhs)@, 0, old(lhs).len() as int) + r as int * bp(old(lhs).len() as int)
-            == lvr(old(lhs)@, 0, old(lhs).len() as int) + a as int/*-*/
-{ let mut a = a ;
-    if a == 0 {
-        return 0;
-    }
-    for lhs in lhs {
-        let ( t0_0 , t0_1 ) = u128::add(*lhs, a).split();*lhs = t0_0 ; a = t0_1 ;
-        if a == 0 {
-            return 0;
-        }
-    }
-    a
-}
-//@ end
+// add_nx1 is proved in unit addnx1 (index-loop form of its early-exit loop).
 
 
 pub assume_specification<T: Ord> [core::cmp::min::<T>] (a: T, b: T) -> (r: T)
